@@ -520,6 +520,12 @@ def make_agent_class():
                             red = order.size_remaining or None
                         except TypeError:  # refused order with an invalid (zero) size
                             red = None
+                    elif isinstance(red, str) and red.startswith("f"):
+                        # a fraction of what remains (e.g. more than half of it)
+                        try:
+                            red = round(float(red[1:]) * order.size_remaining, 2) or None
+                        except TypeError:
+                            red = None
                     r = txn.cancel_order(order, red, **kw)
                 elif op == "update":
                     if a.get("betdaq"):
@@ -562,8 +568,9 @@ def make_agent_class():
             run = self.run
             F = _F
             sel, side = a["sel"], a["side"]
-            # the runner key is (selection id, handicap): the handicap always comes from the target market's definition
-            hc = (run.markets_by_id.get(market.market_id, {}).get("hc") or {}).get(str(sel), 0)
+            # the runner key is (selection id, handicap): both come from the target market's definition (a["sel"] is the
+            # generator's internal runner key; in a market with several lines per selection it maps to (selection, line))
+            sel, hc = marketgen.wire_key(run.markets_by_id.get(market.market_id, {}), sel)
             trades = self.trades.setdefault(market.market_id, [])
             t = a.get("trade")
             if t is not None and t < 0:
@@ -732,6 +739,8 @@ class BacktestRun:
         self.markets_by_id = {m["id"]: m for m in scenario["markets"]}
         if any(m.get("hc") for m in scenario["markets"]):
             self.res.probes["scenario.handicap_market"] += 1
+        if any(m.get("rk") for m in scenario["markets"]):
+            self.res.probes["scenario.selection_on_several_handicap_lines"] += 1
         self.pt_index = {
             m["id"]: {u["pt"]: j for j, u in enumerate(m["updates"])} for m in scenario["markets"]
         }
@@ -746,6 +755,10 @@ class BacktestRun:
     # -- helpers for monitors
     def state(self, market_id, j):
         return self.markets_by_id[market_id]["updates"][j]
+
+    def rkey(self, order):
+        """generator's runner key of an order's runner (selection id, handicap)"""
+        return marketgen.internal_key(self.markets_by_id[order.market_id], order.selection_id, order.handicap)
 
     def note_harness(self, text):
         if self.harness_error is None:
